@@ -1262,4 +1262,169 @@ theorem sStreams_refines {total : Nat} {s : Bytes} {ss : SStreams} {r : Bytes} (
         rw [hb] at hb'; simp at hb'
       · intro _; rw [e.1]
 
+/-- an optional vector of `k`-byte words: a value is present exactly where the bit is set -/
+theorem optCrcs_refine_gen (k : Nat) (w : String) : ∀ (defined : List Bool) (s : Bytes) (cs : List (Option Nat)) (r : Bytes), Inp s →
+    defined.mapM (fun d => if d then (do let c ← sFixed k w; pure (some c)) else (pure none : SP (Option Nat))) s = .ok (cs, r) →
+    True ∧ Inp r ∧ defined = cs.map (·.isSome)
+  | [], s, cs, r, hi, h => by
+    simp only [List.mapM_nil] at h
+    have e := SP.pure_inv h; simp at e
+    rw [e.1, e.2]; exact ⟨trivial, hi, rfl⟩
+  | d :: ds, s, cs, r, hi, h => by
+    simp only [List.mapM_cons] at h
+    obtain ⟨c, s1, h1, h2⟩ := SP.bind_inv h
+    obtain ⟨rest, s2, h3, h4⟩ := SP.bind_inv h2
+    have e := SP.pure_inv h4; simp at e
+    cases d with
+    | false =>
+      simp only [Bool.false_eq_true, if_false] at h1
+      have e1 := SP.pure_inv h1; simp at e1
+      obtain ⟨_, ir, hd⟩ := optCrcs_refine_gen k w ds s1 rest s2 (by rw [e1.2]; exact hi) h3
+      rw [e.1, e.2]
+      exact ⟨trivial, ir, by rw [e1.1]; simp [hd]⟩
+    | true =>
+      simp only [if_true] at h1
+      obtain ⟨v, t1, q1, m1⟩ := SP.bind_inv h1
+      have e1 := SP.pure_inv m1; simp at e1
+      obtain ⟨_, itf⟩ := sFixed_refines' hi q1
+      obtain ⟨_, ir, hd⟩ := optCrcs_refine_gen k w ds s1 rest s2 (by rw [e1.2]; exact itf) h3
+      rw [e.1, e.2]
+      exact ⟨trivial, ir, by rw [e1.1]; simp [hd]⟩
+
+/-! ### FilesInfo: the optional fixed-width vector properties (times, attributes) -/
+
+/-- what py7zr stores for an entry of an optional vector: the value, or "read but undefined" -/
+def slotOfOpt : Option Nat → Slot Nat
+  | some v => .val v
+  | none => .undef
+
+/-- the values of a time property (CTime / ATime / MTime), entry by entry -/
+theorem setTimes_refines (k : TimeKind) (w : String) : ∀ (files : List FileEntry) (vals : List (Option Nat)) (s r : Bytes),
+    Inp s → files.length = vals.length →
+    (vals.map (·.isSome)).mapM (fun d => if d then (do let v ← sFixed 8 w; pure (some v)) else (pure none : SP (Option Nat))) s = .ok (vals, r) →
+    setTimes k files (vals.map (·.isSome)) s = .ok ((files.zip vals).map (fun (f, v) => setTime k f (slotOfOpt v)), r) ∧ Inp r
+  | [], [], s, r, hi, _, h => by
+    simp only [List.map_nil, List.mapM_nil] at h
+    have e := SP.pure_inv h; simp at e
+    rw [e]; exact ⟨rfl, hi⟩
+  | [], _ :: _, _, _, _, hl, _ => by simp at hl
+  | _ :: _, [], _, _, _, hl, _ => by simp at hl
+  | f :: fs, v :: vs, s, r, hi, hl, h => by
+    simp only [List.map_cons, List.mapM_cons] at h
+    obtain ⟨c, s1, h1, h2⟩ := SP.bind_inv h
+    obtain ⟨rest, s2, h3, h4⟩ := SP.bind_inv h2
+    have e := SP.pure_inv h4; simp at e
+    obtain ⟨⟨ec, erest⟩, er⟩ := e
+    rw [← erest] at h3
+    simp only [List.map_cons, setTimes, List.zip_cons_cons]
+    cases v with
+    | none =>
+      simp only [Option.isSome_none, Bool.false_eq_true, if_false] at h1 ⊢
+      have e1 := SP.pure_inv h1; simp at e1
+      obtain ⟨g, ir⟩ := setTimes_refines k w fs vs s1 s2 (by rw [e1.2]; exact hi) (by simpa using hl) h3
+      rw [P.bind_run (rfl : (pure Slot.undef : P (Slot Nat)) s = .ok (Slot.undef, s)), ← e1.2, P.bind_run g, er]
+      exact ⟨rfl, by first | exact ir | (rw [er] at ir; exact ir) | (rw [← er] at ir; exact ir)⟩
+    | some x =>
+      simp only [Option.isSome_some, if_true] at h1 ⊢
+      obtain ⟨y, t1, q1, m1⟩ := SP.bind_inv h1
+      have e1 := SP.pure_inv m1; simp at e1
+      obtain ⟨gf, itf⟩ := sFixed_refines' hi q1
+      obtain ⟨g, ir⟩ := setTimes_refines k w fs vs s1 s2 (by rw [e1.2]; exact itf) (by simpa using hl) h3
+      have hy : y = x := by have := e1.1; rw [← ec] at this; simpa using this.symm
+      have gb : ((do let t ← pFixed 8; pure (Slot.val t)) : P (Slot Nat)) s = .ok (Slot.val x, s1) := by
+        rw [P.bind_run gf, e1.2, hy]; rfl
+      rw [P.bind_run gb, P.bind_run g, er]
+      exact ⟨rfl, by first | exact ir | (rw [er] at ir; exact ir) | (rw [← er] at ir; exact ir)⟩
+
+/-- the property body as a whole: BooleanList, external byte, values -/
+theorem sOptVector_times_refines (k : TimeKind) (w : String) (files : List FileEntry) (vals : List (Option Nat)) (s r : Bytes)
+    (hi : Inp s) (h : sOptVector files.length 8 w s = .ok (vals, r)) :
+    (do
+      let defined ← pBools files.length true
+      let ext ← read1
+      if ext ≠ some 0 then Impl.fail .malformed else setTimes k files defined : P (List FileEntry)) s =
+      .ok ((files.zip vals).map (fun (f, v) => setTime k f (slotOfOpt v)), r) ∧ Inp r ∧ vals.length = files.length := by
+  unfold sOptVector at h
+  obtain ⟨defined, s1, q1, k1⟩ := SP.bind_inv h
+  obtain ⟨gd, i1, ld⟩ := sBoolList_refines' hi q1
+  obtain ⟨ext, s2, q2, k2⟩ := SP.bind_inv k1
+  have e2 := sByte_inv q2
+  have i2 : Inp s2 := by rw [e2] at i1; exact i1.tail
+  split at k2
+  · exact (SP.fail_inv k2).elim
+  rename_i hext
+  have hext' : ext = 0 := by simpa using hext
+  -- the values determine the bits
+  have hdv : defined = vals.map (·.isSome) := by
+    have := (optCrcs_refine_gen 8 w defined s2 vals r i2 k2).2.2
+    exact this
+  have hl : files.length = vals.length := by rw [← ld, hdv]; simp
+  rw [hdv] at k2
+  obtain ⟨g, ir⟩ := setTimes_refines k w files vals s2 r i2 hl k2
+  rw [P.bind_run gd, e2, P.bind_run (read1_cons ext s2)]
+  simp only [hext', ne_eq, not_true_eq_false, if_false, hdv]
+  exact ⟨g, ir, hl.symm⟩
+
+theorem setAttrs_refines (w : String) : ∀ (files : List FileEntry) (vals : List (Option Nat)) (s r : Bytes),
+    Inp s → files.length = vals.length →
+    (vals.map (·.isSome)).mapM (fun d => if d then (do let v ← sFixed 4 w; pure (some v)) else (pure none : SP (Option Nat))) s = .ok (vals, r) →
+    setAttrs files (vals.map (·.isSome)) s = .ok ((files.zip vals).map (fun (f, v) => { f with attributes := slotOfOpt v }), r) ∧ Inp r
+  | [], [], s, r, hi, _, h => by
+    simp only [List.map_nil, List.mapM_nil] at h
+    have e := SP.pure_inv h; simp at e
+    rw [e]; exact ⟨rfl, hi⟩
+  | [], _ :: _, _, _, _, hl, _ => by simp at hl
+  | _ :: _, [], _, _, _, hl, _ => by simp at hl
+  | f :: fs, v :: vs, s, r, hi, hl, h => by
+    simp only [List.map_cons, List.mapM_cons] at h
+    obtain ⟨c, s1, h1, h2⟩ := SP.bind_inv h
+    obtain ⟨rest, s2, h3, h4⟩ := SP.bind_inv h2
+    have e := SP.pure_inv h4; simp at e
+    obtain ⟨⟨ec, erest⟩, er⟩ := e
+    rw [← erest] at h3
+    simp only [List.map_cons, setAttrs, List.zip_cons_cons]
+    cases v with
+    | none =>
+      simp only [Option.isSome_none, Bool.false_eq_true, if_false] at h1 ⊢
+      have e1 := SP.pure_inv h1; simp at e1
+      obtain ⟨g, ir⟩ := setAttrs_refines w fs vs s1 s2 (by rw [e1.2]; exact hi) (by simpa using hl) h3
+      rw [P.bind_run (rfl : (pure Slot.undef : P (Slot Nat)) s = .ok (Slot.undef, s)), ← e1.2, P.bind_run g, er]
+      exact ⟨rfl, by first | exact ir | (rw [er] at ir; exact ir) | (rw [← er] at ir; exact ir)⟩
+    | some x =>
+      simp only [Option.isSome_some, if_true] at h1 ⊢
+      obtain ⟨y, t1, q1, m1⟩ := SP.bind_inv h1
+      have e1 := SP.pure_inv m1; simp at e1
+      obtain ⟨gf, itf⟩ := sFixed_refines' hi q1
+      obtain ⟨g, ir⟩ := setAttrs_refines w fs vs s1 s2 (by rw [e1.2]; exact itf) (by simpa using hl) h3
+      have hy : y = x := by have := e1.1; rw [← ec] at this; simpa using this.symm
+      have gb : ((do let t ← pFixed 4; pure (Slot.val t)) : P (Slot Nat)) s = .ok (Slot.val x, s1) := by
+        rw [P.bind_run gf, e1.2, hy]; rfl
+      rw [P.bind_run gb, P.bind_run g, er]
+      exact ⟨rfl, by first | exact ir | (rw [er] at ir; exact ir) | (rw [← er] at ir; exact ir)⟩
+
+theorem sOptVector_attrs_refines (w : String) (files : List FileEntry) (vals : List (Option Nat)) (s r : Bytes)
+    (hi : Inp s) (h : sOptVector files.length 4 w s = .ok (vals, r)) :
+    (do
+      let defined ← pBools files.length true
+      let ext ← read1
+      if ext = some 0 then setAttrs files defined else Impl.fail .unsupported : P (List FileEntry)) s =
+      .ok ((files.zip vals).map (fun (f, v) => { f with attributes := slotOfOpt v }), r) ∧ Inp r ∧ vals.length = files.length := by
+  unfold sOptVector at h
+  obtain ⟨defined, s1, q1, k1⟩ := SP.bind_inv h
+  obtain ⟨gd, i1, ld⟩ := sBoolList_refines' hi q1
+  obtain ⟨ext, s2, q2, k2⟩ := SP.bind_inv k1
+  have e2 := sByte_inv q2
+  have i2 : Inp s2 := by rw [e2] at i1; exact i1.tail
+  split at k2
+  · exact (SP.fail_inv k2).elim
+  rename_i hext
+  have hext' : ext = 0 := by simpa using hext
+  have hdv : defined = vals.map (·.isSome) := (optCrcs_refine_gen 4 w defined s2 vals r i2 k2).2.2
+  have hl : files.length = vals.length := by rw [← ld, hdv]; simp
+  rw [hdv] at k2
+  obtain ⟨g, ir⟩ := setAttrs_refines w files vals s2 r i2 hl k2
+  rw [P.bind_run gd, e2, P.bind_run (read1_cons ext s2)]
+  simp only [hext', if_true, hdv]
+  exact ⟨g, ir, hl.symm⟩
+
 end SevenZ
